@@ -1,5 +1,6 @@
 import FastraceModel.Lemmas.Wire
 import FastraceModel.Lemmas.JaegerDec
+import FastraceModel.Lemmas.DatadogDec
 import FastraceModel.Model.Report.Jaeger
 import FastraceModel.Model.Report.Datadog
 import FastraceModel.Props.ParamsOk
@@ -120,6 +121,23 @@ theorem C19_jaeger_time_loss (ns : Nat) : ns / 1000 * 1000 ≤ ns ∧ ns < ns / 
 end Jaeger
 
 namespace Datadog
+
+/-- **the Datadog request body round-trips** (whole body: the one-element trace array, the
+    array of span maps, every field of every map): decoding what `serialize` produces gives,
+    for every record exactly once and in order, its Datadog view — name, service, type,
+    resource, start and duration as i64 bit patterns, the low 64 bits of the trace id, span and
+    parent id, and `meta` = one entry per property key (absent when there are no properties).
+    Events are not part of the format. -/
+theorem C19_datadog_roundtrip (c : Cfg) (rs : List Record) (h : ∀ r ∈ rs, RecOk c r) (hn : rs.length < 2 ^ 32) :
+    decodeBody (encodeBody c rs) = some (rs.map (ddView c)) :=
+  decodeBody_encodeBody c rs h hn
+
+/-- the msgpack primitives behind it (smallest-form integers incl. negative i64, strings,
+    map / array headers) -/
+theorem C19_msgpack_primitives (u : Nat) (s rest : List Nat) (hu : u < 2 ^ 64) (hs : s.length < 2 ^ 32) :
+    decSint (mpSint u ++ rest) = some (u, rest) ∧ decUint (mpUint u ++ rest) = some (u, rest) ∧
+    decStr (mpStr s ++ rest) = some (s, rest) :=
+  ⟨decSint_mpSint u rest hu, decUint_mpUint u rest hu, decStr_mpStr s rest hs⟩
 
 /-- `meta` keeps one entry per key -/
 theorem C19_meta_keys_subset (p : Props) : ∀ kv ∈ metaOf p, ∃ v, (kv.1, v) ∈ p := by
